@@ -441,6 +441,7 @@ func genC11(c *ctx) {
 	genJSONTypes(c, st)
 	genTypedBodies(c, c.set.Stream("typed", "Corr.RunM", "run", 500))
 	genTypedBodies2(c, c.set.Stream("typed2", "Corr.RunM", "run", 500))
+	genTokenForms(c, c.set.Stream("token", "Corr.RunM", "run", 400))
 	if f := f8Oracle(); f != "" {
 		st.Add(&cs.Case{Coq: "(KSkip [] false 0%N)", Desc: map[string]any{"op": "encode negative GoogleUserID"}, Class: "corpus/F8", Nontrivial: true, OracleFail: f})
 	}
